@@ -22,7 +22,7 @@ def pick(rnd, i):
 
 CHECK = ComponentCheck("C25", pick, drain=0, suite=(("PriorityEncoderAllocator",), ("test/lib/test_allocators.py",)))
 shards, run_shard = CHECK.shards, CHECK.run_shard
-RULE = ("histories = hostile random alloc[i]/free[j]/peek/replace/clear sequences for entries in {1,2,3,5,8,16}, 1-4 alloc ways, 1-3 free ways, init "
+RULE = ("[in 30% of the histories every provided exclusive method has a second, competing caller transaction: a request is issued by the main caller, the rival or both; condition exclusive_method_serves_at_most_one_caller_per_cycle] histories = hostile random alloc[i]/free[j]/peek/replace/clear sequences for entries in {1,2,3,5,8,16}, 1-4 alloc ways, 1-3 free ways, init "
         "in {all free (-1), random non-negative mask, none, negative partial mask ~m}; only allocated identifiers are freed, each at most once per cycle; non-trivial distinct case = (config, number of "
         "simultaneous allocs and frees, clear/replace, number of free identifiers)")
 ASSUMPTIONS = ["frees respect the documented precondition (generator consults the model)", "clear and replace conflict (clear calls replace): only progress of the pair is required"]
